@@ -8,7 +8,7 @@ import (
 
 func init() {
 	Register(&Scenario{
-		Prop: "C05", Run: scenarioC05, QuickRuns: 22500, ThoroughRuns: 562500, Level: "exploration",
+		Prop: "C05", Run: scenarioC05, QuickRuns: 22500, ThoroughRuns: 3000000, Level: "exploration",
 		Rule:       "one run = a seeded world evolved for a few generations, then a history of tape-chosen mutators applied in place to harness-made copies of its organisms (each result is the operand of later calls), against the real population's innovation record or the reference registry (empty, or already holding records made by earlier calls of the same history); every call is judged by the before/after diff of the canonical genome dump together with its boolean result. A case is one mutator call; non-trivial when the call reported success on a genome with a hidden node, a disabled or a recurrent gene; distinct by (mutator, genome shape hash, result)",
 		RealParts:  []string{"all ten mutators and mutateAllNonstructural, geneInsert / nodeInsert, the innovation lookup", "the real Population as innovation record in about half of the histories", "math/rand seeded from the tape per call"},
 		StubParts:  []string{"reference innovation registry in the other half", "fitness during the preparatory epochs"},
